@@ -7,6 +7,7 @@ import RevalModel.Lemmas.NoPanic
 import RevalModel.Lemmas.Exact
 import RevalModel.Impl.RuleSet
 import RevalModel.Lemmas.InRange
+import RevalModel.Lemmas.DecExact
 
 namespace Reval.C01
 
@@ -95,6 +96,55 @@ theorem operators_stay_in_range (o : Oracle) (ho : o.InRange) :
     (∀ op a b r, a.inRange = true → b.inRange = true → applyBin o op a b = .ok r → r.inRange = true) :=
   ⟨fun _ _ _ hv h => applyUn_inRange ho hv h, fun _ _ _ _ ha hb h => applyBin_inRange ho ha hb h⟩
 
+/-- Decimal `+ − ×` (non-zero operands): the exact rational result, correctly rounded (half-even) at the finest
+    scale at which its mantissa fits 96 bits — never a wrapped or truncated mantissa — and an overflow outcome only
+    when not even the rounding to an integer fits; the overflow outcome is an *error* of the operator -/
+theorem decimal_arith_rounded_or_error (o : Oracle) (a b : Dec) (ha : a.mant ≠ 0) (hb : b.mant ≠ 0) :
+    (match Dec.add a b with
+      | .val d =>
+          d.scale ≤ Dec.sumScale a b ∧ d.mant ≤ Dec.maxMant ∧ d.neg = decide (Dec.sumNum a b.neg b < 0) ∧
+          d.mant = Dec.rhe (Dec.sumNum a b.neg b).natAbs (10 ^ (Dec.sumScale a b - d.scale)) ∧
+          2 * ((d.mant : Int) * (10 ^ (Dec.sumScale a b - d.scale) : Nat) - (Dec.sumNum a b.neg b).natAbs).natAbs
+            ≤ 10 ^ (Dec.sumScale a b - d.scale) ∧
+          ∀ sc', d.scale < sc' → sc' ≤ Dec.sumScale a b →
+            Dec.maxMant < Dec.rhe (Dec.sumNum a b.neg b).natAbs (10 ^ (Dec.sumScale a b - sc'))
+      | .overflow => ∀ sc', sc' ≤ Dec.sumScale a b →
+            Dec.maxMant < Dec.rhe (Dec.sumNum a b.neg b).natAbs (10 ^ (Dec.sumScale a b - sc'))
+      | .unknown => ∃ sc, sc ≤ Dec.sumScale a b ∧
+            Dec.rhe (Dec.sumNum a b.neg b).natAbs (10 ^ (Dec.sumScale a b - sc)) = 0) ∧
+    (match Dec.mul a b with
+      | .val d =>
+          d.scale ≤ a.scale + b.scale ∧ d.scale ≤ 28 ∧ d.mant ≤ Dec.maxMant ∧ d.neg = (a.neg != b.neg) ∧
+          d.mant = Dec.rhe (a.mant * b.mant) (10 ^ (a.scale + b.scale - d.scale)) ∧
+          2 * ((d.mant : Int) * (10 ^ (a.scale + b.scale - d.scale) : Nat) - (a.mant * b.mant : Nat)).natAbs
+            ≤ 10 ^ (a.scale + b.scale - d.scale) ∧
+          ∀ sc', d.scale < sc' → sc' ≤ a.scale + b.scale → sc' ≤ 28 →
+            Dec.maxMant < Dec.rhe (a.mant * b.mant) (10 ^ (a.scale + b.scale - sc'))
+      | .overflow => ∀ sc', sc' ≤ a.scale + b.scale → sc' ≤ 28 →
+            Dec.maxMant < Dec.rhe (a.mant * b.mant) (10 ^ (a.scale + b.scale - sc'))
+      | .unknown => ∃ sc, sc ≤ 28 ∧ Dec.rhe (a.mant * b.mant) (10 ^ (a.scale + b.scale - sc)) = 0) ∧
+    (Dec.add a b = .overflow → applyBin o .add (.dec a) (.dec b) = .err (.outOfBounds (.dec a))) ∧
+    (Dec.sub a b = .overflow → applyBin o .sub (.dec a) (.dec b) = .err (.outOfBounds (.dec a))) ∧
+    (Dec.mul a b = .overflow → applyBin o .mult (.dec a) (.dec b) = .err (.outOfBounds (.dec a))) :=
+  ⟨Dec.addSigned_spec a b.neg b ha hb, Dec.mul_spec a b ha hb,
+   fun h => by simp [applyBin, Impl.add, Impl.decOut, h],
+   fun h => by simp [applyBin, Impl.sub, Impl.decOut, h],
+   fun h => by simp [applyBin, Impl.mult, Impl.decOut, h]⟩
+
+/-- when the exact sum / difference / product is representable at the operands' scale, it IS the result -/
+theorem decimal_arith_exact_when_representable (o : Oracle) (a b : Dec) (ha : a.mant ≠ 0) (hb : b.mant ≠ 0) :
+    (Dec.sumNum a b.neg b ≠ 0 → (Dec.sumNum a b.neg b).natAbs ≤ Dec.maxMant →
+      applyBin o .add (.dec a) (.dec b) =
+        .ok (.dec ⟨decide (Dec.sumNum a b.neg b < 0), (Dec.sumNum a b.neg b).natAbs, Dec.sumScale a b⟩)) ∧
+    (Dec.sumNum a (!b.neg) b ≠ 0 → (Dec.sumNum a (!b.neg) b).natAbs ≤ Dec.maxMant →
+      applyBin o .sub (.dec a) (.dec b) =
+        .ok (.dec ⟨decide (Dec.sumNum a (!b.neg) b < 0), (Dec.sumNum a (!b.neg) b).natAbs, Dec.sumScale a b⟩)) ∧
+    (a.scale + b.scale ≤ 28 → a.mant * b.mant ≤ Dec.maxMant →
+      applyBin o .mult (.dec a) (.dec b) = .ok (.dec ⟨a.neg != b.neg, a.mant * b.mant, a.scale + b.scale⟩)) :=
+  ⟨fun hz hf => by simp [applyBin, Impl.add, Impl.decOut, Dec.add, Dec.addSigned_exact_when_fits a b.neg b ha hb hz hf],
+   fun hz hf => by simp [applyBin, Impl.sub, Impl.decOut, Dec.sub, Dec.addSigned_exact_when_fits a (!b.neg) b ha hb hz hf],
+   fun hs hf => by simp [applyBin, Impl.mult, Impl.decOut, Dec.mul_exact_when_fits a b ha hb hs hf]⟩
+
 /-! non-vacuity: the hypotheses are satisfiable (empty oracle, extreme operands), and the conclusion is not
     trivial (`Value.inRange` is false of what a wrapped / unchecked result would be) -/
 example : Oracle.empty.InRange := by intro op args v h; simp [Oracle.empty] at h
@@ -111,5 +161,11 @@ example : applyUn Oracle.empty .week (.int (2 ^ 64)) = .err (.outOfBounds (.int 
 example : applyUn Oracle.empty .toInt (.float ⟨0x4840000000000000⟩) = .err (.invalidCast (.float ⟨0x4840000000000000⟩)) := by decide
 example : applyBin Oracle.empty .add (.dateTime Time.dtMax) (.duration 1) = .err (.outOfBounds (.dateTime Time.dtMax)) := by decide
 example : applyBin Oracle.empty .add (.int 2) (.int 3) = .ok (.int 5) := by decide
+-- d79228162514264337593543950335 + d1 is an error; … + d0.4 rounds (half-even) back to the maximum; 1.5 × 2.5 = 3.75
+example : applyBin Oracle.empty .add (.dec ⟨false, Dec.maxMant, 0⟩) (.dec ⟨false, 1, 0⟩)
+    = .err (.outOfBounds (.dec ⟨false, Dec.maxMant, 0⟩)) := by decide
+example : applyBin Oracle.empty .add (.dec ⟨false, Dec.maxMant, 0⟩) (.dec ⟨false, 4, 1⟩)
+    = .ok (.dec ⟨false, Dec.maxMant, 0⟩) := by decide
+example : applyBin Oracle.empty .mult (.dec ⟨false, 15, 1⟩) (.dec ⟨true, 25, 1⟩) = .ok (.dec ⟨true, 375, 2⟩) := by decide
 
 end Reval.C01
